@@ -13,6 +13,19 @@ log = open(sys.argv[1]).read().split('\n')
 note = ' '.join(sys.argv[2:])
 i = 0
 while i < len(log):
+    m0 = re.match(r'RESULT (C\d+) (\S+): patch does not apply', log[i])
+    if m0:
+        dst0 = os.path.join(VERIF, 'seeded', m0.group(2))
+        if os.path.exists(os.path.join(dst0, 'meta.json')):
+            meta0 = json.load(open(os.path.join(dst0, 'meta.json')))
+            meta0.setdefault('verif_runs', []).append({
+                'ran': 'tools/seedrun.sh %s seeded/%s' % (m0.group(1), m0.group(2)), 'applies': False,
+                'note': (note + '; ' if note else '') + 'the patch no longer applies to /repo HEAD: the lines it edits were '
+                        'replaced by a later repair (fix: commit); the earlier evaluation stands'})
+            json.dump(meta0, open(os.path.join(dst0, 'meta.json'), 'w'), indent=1)
+            print(m0.group(2), 'patch does not apply')
+        i += 1
+        continue
     m = re.match(r'RESULT (C\d+) (\S+): demo_clean=(\d+) demo_mutated=(\d+) check_exit=(\d+) violations=(\d+)', log[i])
     if not m:
         i += 1
